@@ -44,6 +44,7 @@ from spacepackets.util import ByteFieldGenerator, UnsignedByteField
 
 from cfdppy.defs import CfdpState
 from cfdppy.exceptions import (
+    FileNameTooLong,
     InvalidDestinationId,
     InvalidNakPdu,
     InvalidPduDirection,
@@ -324,6 +325,8 @@ class SourceHandler:
             No remote configuration found for destination ID specified in the Put Request.
         SourceFileDoesNotExist
             File specified for Put Request does not exist.
+        FileNameTooLong
+            A file name of the Put Request does not fit into a Metadata PDU.
 
         Returns
         --------
@@ -340,6 +343,11 @@ class SourceHandler:
                 raise SourceFileDoesNotExist(self._put_req.source_file)
         if self._put_req.dest_file is not None:
             assert isinstance(self._put_req.dest_file, Path)
+        for file_name in (self._put_req.source_file, self._put_req.dest_file):
+            # The file names are transferred as LV fields of the Metadata PDU. Refuse a name which
+            # does not fit now, the generation of the Metadata PDU would fail later otherwise.
+            if file_name is not None and len(file_name.as_posix().encode()) > 255:
+                raise FileNameTooLong(file_name)
         self._params.remote_cfg = self.remote_cfg_table.get_cfg(request.destination_id)
         if self._params.remote_cfg is None:
             raise NoRemoteEntityCfgFound(entity_id=request.destination_id)
